@@ -50,9 +50,14 @@ def head (major n : Nat) : Bytes :=
   else if n < 4294967296 then UInt8.ofNat (major * 32 + 26) :: be 4 n
   else UInt8.ofNat (major * 32 + 27) :: be 8 n
 
-/-- Take exactly `k` bytes, or fail. -/
-def takeN (k : Nat) (bs : Bytes) : Option (Bytes × Bytes) :=
-  if k ≤ bs.length then some (bs.take k, bs.drop k) else none
+/-- Take exactly `k` bytes, or fail (one pass: never measures the whole remaining input). -/
+def takeN : Nat → Bytes → Option (Bytes × Bytes)
+  | 0, bs => some ([], bs)
+  | _ + 1, [] => none
+  | k + 1, b :: bs =>
+    match takeN k bs with
+    | some (a, r) => some (b :: a, r)
+    | none => none
 
 /-- Decode a head (any width, not only the shortest): `(major, additional info, argument, rest)`.
 Additional information 28..31 (reserved / indefinite length / break) is rejected. -/
